@@ -2,4 +2,4 @@ Require Extraction.
 Require Import ExtrOcamlBasic.
 From LH Require Import Base.Bytes Base.Res Model.Lexer Model.Ast Model.Parser Model.Number Model.LuaFront
   Spec.PatternSpec Model.Patterns Proofs.PatternsClasses.
-Extraction "c20model.ml" extract_anchor tk_code classify_tok check_bytes run_bytes.
+Extraction "c20model.ml" extract_anchor tk_code classify_tok check_bytes run_bytes deployed no_fixes all_fixes.
